@@ -19,7 +19,7 @@ LEVEL_TEXT = ("bounded, solver-decided: for every harness the SAT solver shows t
 CLAIMED = {
     "C01": dict(
         text="Header layout and round trip over all field values at full width against an independent spec table; every synchronous emission route (to_vec, write_to, write_message, write_message_streaming, into_wire_bytes) pairwise through that oracle at small constant payload sizes and every body-capacity relation, also into a short-writing sink; builder; parse-back; TCP-vs-WebSocket response framing parity; the async routes (write_message_async, async_server::write_view_response) driven by a two-line executor over tokio's in-memory AsyncWrite for Vec<u8>.",
-        note="Bounds: |query| <= 2, |body| <= 3 per route instance (sizes are per-instance constants, contents and all 11 header fields symbolic). Outside: payloads larger than the instances, async writers over real sockets (only the in-memory writer is driven), interop fixtures, bytes from running servers.",
+        note="Bounds: per route instance |query| <= 2 and |body| <= 3 (quick) or up to 5 and 8 (thorough); sizes are per-instance constants, contents and all 11 header fields symbolic. Outside: payloads larger than the instances, async writers over real sockets (only the in-memory writer is driven), interop fixtures, bytes from running servers.",
         ref="DESIGN.md §4 C01"),
     "C02": dict(
         text="Header::decode, Message/MessageView::from_slice(_exact) total on fully symbolic buffers (<= 56 bytes, every length incl. wrapping 64-bit sums) with an exact accept/reject oracle; read_message on hostile streams (symbolic contents, truncation, short read, I/O error) and with never-allocatable declared sizes under an allocator-failure stub.",
@@ -27,7 +27,7 @@ CLAIMED = {
         ref="DESIGN.md §4 C02"),
     "C03": dict(
         text="The shared dispatch core (route, route_request_view, dispatch_view, dispatch, error-response builders, echo rule): response/notify discipline, exactly-once handler invocation, error-code mapping, and equality of the three compositions the transports build (TCP borrowed, WebSocket inline, WebSocket off-reader) for symbolic headers and handler outcomes.",
-        note="PARTIAL: the four connection loops (threads/tokio/sockets), response ordering, pipelines and the concrete built-in handler kinds with real JSON/BEVE bodies are outside; a change confined to a loop is not detected. Query bytes are per-instance constants (UTF-8 validation of symbolic bytes is out of reach); lookup stubbed to '/a registered' (lookup is C07); error text stubbed.",
+        note="PARTIAL: the four connection loops (threads/tokio/sockets), response ordering, pipelines and the concrete built-in handler kinds with real JSON/BEVE bodies are outside; a change confined to a loop is not detected. Queries are 0-2 symbolic bytes restricted to ASCII or >= 0xf8 (the domain on which the from_utf8 stub - an ASCII check - is exact; the real validator is out of reach); the handler outcome is a per-instance constant; lookup stubbed to '/a registered' (lookup is C07); error text stubbed.",
         ref="DESIGN.md §4 C03"),
     "C04": dict(
         text="Only the schedule-independent safety clause: every client funnels each result through validate_response(expected_id, resp) on its return path; for a fully symbolic response header, Ok implies id == expected (and version, ec), so no call can return another call's response under any interleaving or reply order.",
@@ -96,6 +96,8 @@ def main():
         if p in CLAIMED and hs:
             c = CLAIMED[p]
             nq = sum(1 for h in hs if h["tier"] == "quick")
+            nt = sum(1 for h in hs if h["tier"] in ("quick", "thorough"))
+            nx = sum(1 for h in hs if h["tier"] == "experimental")
             checks.append({
                 "property_id": p,
                 "quick_cmd": f"python3 driver/check.py {p} --tier quick",
@@ -104,7 +106,7 @@ def main():
                 "replay_cmd_template": "python3 driver/check.py --replay {path}",
                 "engine": "kani-cbmc",
                 "level_claimed": {"category": "other", "text": LEVEL_TEXT + c["text"], "design_ref": c["ref"]},
-                "level_note": c["note"] + f" Harnesses: {nq} quick / {len(hs)} thorough.",
+                "level_note": c["note"] + f" Harnesses: {nq} in the quick command, {nt} in the thorough command" + (f"; {nx} more exist but are experimental (not run by either command, not part of the claim)." if nx else "."),
                 "technique": TECH,
             })
         else:
